@@ -66,7 +66,9 @@ CLAIMS['C04'] = dict(
           "(strict mode: every accepted byte string is the encoding of the well-typed value returned), "
           "C04_accepts_iff_valid (accepted iff it is the encoding of some value), C04_strict_bijection, "
           "C04_decode_injective - for every well-formed type without index collections (F6) and init hooks. "
-          "Partial: lax-mode characterisation of the extra inputs is carried by the oracle and the two set lemmas."),
+          "Modes: C04_strict_accept_implies_lax (lax accepts whatever strict accepts, same value, every type) and "
+          "C04_mode_irrelevant_without_order (on types without a hash/ordered set or map the two decoders are the "
+          "same function), so the inputs lax mode adds can only involve such a collection."),
     technique="Lean 4 proof (acceptance/rejection lemmas over the universe, kernel-decided counterexample) + differential check with re-encode oracle",
     design_ref="§5 C04")
 
